@@ -41,7 +41,7 @@ def gen_sols(rng, n_goals, allow_nores=True):
         fit = {}
         for g in range(n_goals):
             if rng.random() < 0.9:
-                fit[g] = rng.choice([0, 0, 0, 1, 2, 3, 5])
+                fit[g] = rng.choice([0, 0, 0, 1, 1, 2, 4, 6, 10])
         sols.append({"sid": sid, "size": size, "st": st, "pos": rng.randrange(0, size + 1), "fit": fit})
     return sols
 
@@ -54,10 +54,10 @@ def gen_arch_case(rng):
     ops = []
     for _ in range(rng.choice([1, 2, 4, 7])):
         if rng.random() < 0.75:
-            ops.append(("Update", [rng.choice(sids) for _ in range(rng.choice([0, 1, 1, 2, 3, 5]))]))
+            ops.append(("Update", [rng.choice(sids) for _ in range(rng.choice([0, 1, 1, 2, 3, 5]))], rng.random() < 0.5))
         else:
             ops.append(("AddGoals", [rng.randrange(n_goals) for _ in range(rng.choice([0, 1, 2, 3]))]))
-    return {"kind": "arch", "n_goals": n_goals, "sols": sols, "init": init, "ops": ops}
+    return {"kind": "arch", "n_goals": n_goals, "sols": sols, "init": init, "ops": ops, "tiny": rng.choice([5e-324, 5.551115123125783e-17, 1e-12, 9e-10, 1.1e-9])}
 
 
 def gen_gm_case(rng):
@@ -73,7 +73,8 @@ def gen_gm_case(rng):
     roots = sorted(rng.sample(range(n_goals), rng.choice([1, 1, 2])))
     pre = [[rng.choice(sids) for _ in range(rng.choice([1, 2]))] for _ in range(rng.choice([0, 0, 1, 2]))]
     upd = [rng.choice(sids) for _ in range(rng.choice([0, 1, 2, 4]))]
-    return {"kind": "gm", "n_goals": n_goals, "sols": sols, "edges": edges, "roots": roots, "pre": pre, "update": upd}
+    return {"kind": "gm", "n_goals": n_goals, "sols": sols, "edges": edges, "roots": roots, "pre": pre, "update": upd,
+            "prefit": rng.random() < 0.5, "tiny": rng.choice([5e-324, 5.551115123125783e-17, 1e-12, 9e-10, 1.1e-9])}
 
 
 def gen_pop_case(rng):
@@ -98,7 +99,7 @@ def gen_mio_case(rng):
             ops.append(("Update", [rng.choice(sids) for _ in range(rng.choice([1, 1, 2, 3]))]))
         else:
             ops.append(("Shrink", rng.choice([1, 1, 2])))
-    return {"kind": "mio", "n_goals": n_goals, "sols": sols, "capacity": rng.choice([1, 2, 3]), "ops": ops}
+    return {"kind": "mio", "n_goals": n_goals, "sols": sols, "capacity": rng.choice([1, 2, 3]), "ops": ops, "tiny": rng.choice([5e-324, 5.551115123125783e-17, 1e-12, 9e-10, 1.1e-9])}
 
 
 # ------------------------------------------------------------------------------------------------
@@ -258,6 +259,7 @@ def oracle_mio_steps(steps, world):
 def run_case(case):
     """Runs a synthetic case on the real classes; returns (coq_term_kind, coq_term, oracle_result, steps)."""
     k = case["kind"]
+    I.set_tiny(case.get("tiny"))
     solmap = {s["sid"]: s for s in case["sols"]}
     if k == "arch":
         w, steps = I.run_arch_history(case["n_goals"], case["sols"], case["init"], case["ops"])
@@ -266,7 +268,8 @@ def run_case(case):
         return "ahist", term, oracle_arch_steps(steps, w.covers), steps
     if k == "gm":
         edges = {int(a): b for a, b in case["edges"].items()}
-        w, before, after = I.run_gm_case(case["n_goals"], case["sols"], edges, case["roots"], case["pre"], case["update"])
+        w, before, after = I.run_gm_case(case["n_goals"], case["sols"], edges, case["roots"], case["pre"], case["update"],
+                                        case.get("prefit", False))
         graph = clist(cpair(cZ(g), clist(cZ(c) for c in ch)) for g, ch in sorted(edges.items()))
         full = {sid: s for sid, s in solmap.items()}
 
@@ -388,7 +391,7 @@ def run(ctx: vlib.Ctx):
     ctx.leg("S-synthetic", oracle_failures=n_or, histories=len(cases))
 
     # TR + S on real search runs
-    suts = sorted((vlib.VERIF / "corpus" / "C13_sut").glob("*.py"))
+    suts = sorted((vlib.VERIF / "corpus" / "C13_sut").glob("*.py"), key=lambda p: (p.stem not in ("floateq13", "bank13"), p.stem))
     jobs = []
     algos = ["DYNAMOSA", "MOSA", "MIO"]
     for k in range(6 if ctx.quick else 18):
@@ -396,6 +399,7 @@ def run(ctx: vlib.Ctx):
         jobs.append(dict(sut=str(suts[(k // 3) % len(suts)]), algorithm=a, metrics=["BRANCH"],
                          iterations=(ctx.rng.choice(([3, 5] if a == "MOSA" else [6, 10]) if ctx.quick else [3, 5, 8, 15]) if a != "MIO"
                                      else ctx.rng.choice([20, 40] if ctx.quick else [30, 60, 120])),
+                         near_miss="floateq" in str(suts[(k // 3) % len(suts)]),
                          seed=ctx.rng.randrange(10**6), pre=I.install_observers, max_records=100 if ctx.quick else 400,
                          extra=({"mio.initial_config.number_of_tests_per_target": ctx.rng.choice([2, 3, 10])} if a == "MIO" else
                                 # DynaMOSA runs its test-suite local search on the archive's solutions after every
@@ -418,6 +422,10 @@ def run(ctx: vlib.Ctx):
                          {"job": jd, "traceback": r.get("traceback", "")[-1500:]})
             continue
         ctx.count(f"real-run:{job['algorithm']}")
+        if job.get("near_miss"):
+            ctx.count("real-run:near-miss-seeded" if r.get("near_miss_injected") else "real-run:near-miss-NOT-seeded")
+            if r.get("near_miss_error"):
+                ctx.notes.append(f"near-miss seeding failed: {r['near_miss_error']}")
         n_real["reexec"] += r["reexec_checked"]
         ctx.count("real:reexec-inconclusive(timeout)", r.get("reexec_inconclusive", 0))
         for f in r["reexec"]:
